@@ -187,6 +187,9 @@ def m_secret_factory_create(I, args, kw):
     (event 'core.create'); key-like secrets carry a key block.  Assumed contract (its
     field-by-field construction is C05's subject)."""
     import importlib
+    tc = getattr(I, 'top_contract', None)
+    if tc is not None and tc.qualname.startswith('contracts.c_secretfactory.'):
+        return NotImplemented       # the lemmas that prove this abstraction run the real factory
     sec = importlib.import_module('kmip.core.secrets')
     cobj = importlib.import_module('kmip.core.objects')
     enums = importlib.import_module('kmip.core.enums')
@@ -198,8 +201,25 @@ def m_secret_factory_create(I, args, kw):
            enums.ObjectType.OPAQUE_DATA: sec.OpaqueObject}.get(ot)
     if cls is None:
         return NotImplemented
-    I.path.session.assumptions.add("SecretFactory.create builds the core secret of the requested type from "
-                                   "exactly the given value dictionary and does not raise")
+    # the abstraction used here is proved of the real factory by the lemmas of
+    # contracts/c_secretfactory.py, for dictionaries with exactly these keys
+    shapes = {sec.Certificate: {'certificate_type', 'certificate_value'},
+              sec.SymmetricKey: {'cryptographic_algorithm', 'cryptographic_length', 'key_format_type', 'key_value',
+                                 'key_wrapping_data'},
+              sec.SecretData: {'key_format_type', 'key_value', 'secret_data_type'},
+              sec.OpaqueObject: {'opaque_data_type', 'opaque_data_value'},
+              sec.SplitKey: {'cryptographic_algorithm', 'cryptographic_length', 'key_format_type', 'key_value',
+                             'key_wrapping_data', 'split_key_parts', 'key_part_identifier', 'split_key_threshold',
+                             'split_key_method', 'prime_field_size'}}
+    shapes[sec.PublicKey] = shapes[sec.PrivateKey] = shapes[sec.SymmetricKey]
+    if not isinstance(value, dict) or set(value) != shapes[cls]:
+        raise OutOfFragment("SecretFactory.create with a dictionary the lemmas of contracts/c_secretfactory.py "
+                            "do not cover: %r" % (sorted(value) if isinstance(value, dict) else value,))
+    I.path.session.assumptions.add("SecretFactory.create: the abstraction used by the handlers (new secret of the "
+                                   "type's class holding the given dictionary, no exception) is proved of the real "
+                                   "factory by the lemmas in contracts/c_secretfactory.py for the dictionary "
+                                   "shapes _build_core_object produces; assumed only: the stored column values "
+                                   "have the kinds the lemmas quantify over")
     o = Obj(cls, {'__value__': value}, 'core-secret')
     if cls in (sec.SymmetricKey, sec.PublicKey, sec.PrivateKey, sec.SecretData):
         o.fields['key_block'] = Obj(cobj.KeyBlock, {'key_wrapping_data': None, '__value__': value}, 'key-block')
@@ -263,6 +283,22 @@ def native_call(I, f, args, kw):
         # attributes: without keywords it does nothing (assumed from its documentation)
         I.path.session.assumptions.add("sqlalchemy declarative __init__() without keywords has no effect")
         return None
+    ek = getattr(getattr(I, 'top_contract', None), 'external_kinds_', None) or {}
+    if ("%s.%s" % (mod, name)) in ek:
+        # the contract under proof states what this dependency returns (an assumed contract, listed)
+        kind, raises = ek["%s.%s" % (mod, name)]
+        from .modular import make_symbolic
+        I.path.session.assumptions.add("external call %s.%s: returns a value of the kind the contract states%s" % (
+            mod, name, ", may raise any Exception" if raises else ", assumed not to raise"))
+        if raises and I.path.choose(2, "ext-raise") == 1:
+            e = ExcVal(Exception, (Opaque('str', 'external-message'),))
+            e.fields['__unknown_subclass__'] = True
+            e.fields['__origin__'] = "%s.%s" % (mod, name)
+            I.path.event('external', "%s.%s" % (mod, name), tuple(args), dict(kw), None)
+            raise _pyvc().Raised(e)
+        result = make_symbolic(I, kind, "%s.%s()" % (mod, name))
+        I.path.event('external', "%s.%s" % (mod, name), tuple(args), dict(kw), result)
+        return result
     if not I.path.session.__dict__.get('allow_external', False):
         raise OutOfFragment("call of external %s.%s" % (mod, name))
     return opaque_external(I, "%s.%s" % (mod, name), args, kw,
@@ -423,7 +459,11 @@ def _havoc_like(I, v, name, kind=None):
     if isinstance(v, Opaque):
         return Opaque(v.pykind, 'havoc_' + name, taint_of(v))
     if isinstance(v, SDict):
-        return SDict(name, v.vkind, v.maker)
+        d = SDict(name, v.vkind, v.maker)
+        d.kkind = v.kkind
+        if v.keyset is not None:
+            d.enable_keyset(I.path)
+        return d
     if isinstance(v, SOpt):
         return SOpt(fresh(name + "_isnone", z3.BoolSort()), _havoc_like(I, v.v, name))
     if v is None:
@@ -496,6 +536,12 @@ def _heap_snapshot(I, env):
             if id(v) in seen:
                 return
             seen[id(v)] = (v, dict(v.fields))
+            # containers held in fields can also be changed in place: remember their content
+            for fn, f in v.fields.items():
+                if isinstance(f, list):
+                    seen[id(v)][1]['__content__' + fn] = list(f)
+                elif type(f).__name__ == 'SDict':
+                    seen[id(v)][1]['__content__' + fn] = getattr(f, 'version', 0)
             for f in v.fields.values():
                 walk(f, depth + 1)
         elif isinstance(v, (list, tuple)):
@@ -512,12 +558,31 @@ def _heap_snapshot(I, env):
 def _check_frame(I, env, snap, allowed, qn, k):
     """Everything on the reachable heap outside `allowed` must be unchanged by the body."""
     allowed_pairs = set()
+    allowed_objs = set()
     for p in allowed:
         o, f = _resolve_path(I, env, p)
         if o is not None:
-            allowed_pairs.add((id(o), f))
+            if f == '*':
+                allowed_objs.add(id(o))
+            else:
+                allowed_pairs.add((id(o), f))
     for oid, (o, fields) in snap.items():
+        if oid in allowed_objs:
+            continue
         for f, old in fields.items():
+            if f.startswith('__content__'):
+                g = f[len('__content__'):]
+                cur = o.fields.get(g)
+                if (oid, g) in allowed_pairs or cur is not fields.get(g):
+                    continue
+                same = (len(cur) == len(old) and all(a is b for a, b in zip(cur, old))) if isinstance(cur, list) \
+                    else getattr(cur, 'version', 0) == old
+                if not same:
+                    I.path.fail("%s/loop.%d.frame" % (qn, k), "frame",
+                                "loop body changes the %s %s.%s in place, which is not in the loop's modifies list"
+                                % ('list' if isinstance(cur, list) else 'dictionary', o.cls.__name__, g))
+                    return
+                continue
             new = o.fields.get(f, None)
             if new is old or (oid, f) in allowed_pairs:
                 continue
@@ -610,6 +675,16 @@ def _havoc_loop_state(I, node, env, spec, tag, extra_skip=()):
             env.locals[n] = _havoc_like(I, env.locals.get(n), "%s_%s" % (tag, n), kind)
     for p in spec.modifies:
         o, f = _resolve_path(I, env, p)
+        if o is not None and f == '*':
+            # every field of the object may have been written by earlier iterations
+            if o.meta.get('db'):
+                for g in [g for g in o.fields if g != '_object_type']:
+                    del o.fields[g]
+                o.meta['havocked'] = True       # unread columns now read as unknown values, not unset
+            else:
+                for g in list(o.fields):
+                    o.fields[g] = _havoc_like(I, o.fields[g], "%s_%s" % (tag, g), None)
+            continue
         if o is None:
             if f in env.locals and f not in names:
                 env.locals[f] = _havoc_like(I, env.locals[f], "%s_%s" % (tag, f), spec.havoc.get(f))
@@ -641,11 +716,11 @@ def symbolic_for(I, node, env, it, spec, k, qn):
         _havoc_loop_state(I, node, env, spec, "L%d" % k)
         i = fresh("i")
         P.assume(z3.And(i >= 0, i <= n_t))
-        gh = {g: _havoc_like(I, v, "g_" + g) for g, v in ghosts.items()}
+        gh = {g: (_havoc_like(I, v, "g_" + g) if g in spec.ghost_step else v) for g, v in ghosts.items()}
         extra = dict(gh)
         extra[idx_name] = SInt(i)
         _assume_inv(I, spec, env, extra, spec._havocked | set(gh))
-        if P.choose(2, "loop") == 0:
+        if P.choose(2, "loop%d" % k) == 0:
             # one arbitrary iteration
             P.assume(i < n_t)
             I.assign(node.target, SInt(i), env)
@@ -686,12 +761,12 @@ def symbolic_for(I, node, env, it, spec, k, qn):
         r = fresh("rest", IntSeq)
         P.assume(whole.to_z3() == z3.Concat(d, r))
         done_v = SSeq(it.kind, [('s', d)], it.taint, it.bound)
-        gh = {g: _havoc_like(I, v, "g_" + g) for g, v in ghosts.items()}
+        gh = {g: (_havoc_like(I, v, "g_" + g) if g in spec.ghost_step else v) for g, v in ghosts.items()}
         extra = dict(gh)
         extra.update({done_name: done_v, rest_name: SSeq(it.kind, [('s', r)], it.taint, it.bound),
                       idx_name: lower_int(z3.Length(d))})
         _assume_inv(I, spec, env, extra, spec._havocked | set(gh))
-        if P.choose(2, "loop") == 0:
+        if P.choose(2, "loop%d" % k) == 0:
             x = fresh("x")
             r2 = fresh("rest", IntSeq)
             P.assume(r == z3.Concat(z3.Unit(x), r2))
@@ -739,7 +814,7 @@ def symbolic_while(I, node, env, spec, k, qn):
         ghosts[g] = I.eval_spec(src, env.locals, env.globals, env.locals.get('__old__'), env.cls_ctx)
     _prove_inv(I, spec, env, dict(ghosts), base + ".init")
     _havoc_loop_state(I, node, env, spec, "W%d" % k)
-    gh = {g: _havoc_like(I, v, "g_" + g) for g, v in ghosts.items()}
+    gh = {g: (_havoc_like(I, v, "g_" + g) if g in spec.ghost_step else v) for g, v in ghosts.items()}
     extra = dict(gh)
     _assume_inv(I, spec, env, extra, spec._havocked | set(gh))
     dec0 = None
@@ -748,7 +823,7 @@ def symbolic_while(I, node, env, spec, k, qn):
         loc.update(extra)
         dec0 = I.eval_spec(spec.decreases, loc, env.globals, env.locals.get('__old__'), env.cls_ctx)
     if I.cond(I.eval(node.test, env)):
-        if P.choose(2, "loop") == 1:
+        if P.choose(2, "loop%d" % k) == 1:
             # the state after exit is not reachable from this fork
             raise _pyvc().Infeasible()
         snap = _heap_snapshot(I, env)
@@ -1129,6 +1204,16 @@ def _neg(t):
 
 def _term(t):
     return t.t if isinstance(t, SBool) else t
+
+
+_link_specrt()
+
+
+@spec_builtin('keys_of')
+def sb_keys_of(I, args, kw):
+    """keys_of(d): the set of keys of a string-keyed dictionary, as a value (snapshot)"""
+    from . import symset
+    return symset.keys_of(I, I.resolve_opt(args[0]))
 
 
 _link_specrt()
